@@ -7,6 +7,8 @@ import Percival.Proofs.AfMonSound
 import Percival.Proofs.UpMonSound
 import Percival.Proofs.UpMonSoundG
 import Percival.Proofs.AfAns
+import Percival.Proofs.HeapCreateAlloc
+import Percival.Properties.C13
 /-!
 # C14 — allocation failure is reported, leaves objects unchanged and leaks nothing (proof-level part)
 
@@ -497,8 +499,8 @@ example : (Proofs.AfStep.evCall {} .run).map (fun r => (r.1, r.2.1)) = some (.ok
 
 open Percival.Model.AfStep Percival.Proofs.AfStep in
 /-- **`pmodel af`, pointer heap**: for every op on which the harness calls the heap (`heapCall`:
-`HeapAlloc.init` — after freeing a heap it still has —, `HeapAlloc.add` with the caller's keys, `Heap.getmin`,
-`HeapAlloc.delete … 0`, `HeapAlloc.free`), the new heap and oracle are exactly that call's, the line shows its
+`HeapAlloc.init` / `HeapAlloc.create` of the line's elements — after freeing a heap it still has —, `HeapAlloc.add`
+with the caller's keys, `Heap.getmin`, `HeapAlloc.delete … 0`, `HeapAlloc.free`), the new heap and oracle are exactly that call's, the line shows its
 status, its refusals and the element, and the event layer is untouched. -/
 theorem exec_af_heap_step (s : AfStep.S) (op : Spec.AfMon.Op) (ok : Bool) (id : Option (Option Nat))
     (h' : Option HeapAlloc.HeapA) (m0 m' : Mem) (h : heapCall s op = some (ok, id, h', m0, m')) :
@@ -924,5 +926,176 @@ open Percival.Proofs.AfAns in
 /-- the lines in question for real outputs -/
 example : afMonLine (.heap true 0 (some (some 5)) { a := [5], hal := 32, c := { live := 2, req := [] } }) = "> ok rf=0 id=5\n" ∧
     upMonLine (.end_ 0 17 none) = "> end live=0 leaked=0\n" := by decide +kernel
+
+/-! ## `ptrheap_create` from an array of N elements (`Model.HeapAlloc.create`; op `h_create` of component `events`)
+
+The allocation sites of `ptrheap_create(compar, setreccookie, cookie, N, ptrs)` in the C's order: the structure
+(`malloc(40)`), then `ptrlist_init(N)` = `elasticarray_init(N, 8)`: the list structure (`malloc(24)`) and — only for
+`N > 0` — its buffer (`realloc(NULL, 8 * N)`).  A refused structure leaves nothing; a failed `ptrlist_init` has released
+what it took and `err1` frees the structure.  After that nothing can fail: the elements are copied, heapified and
+reported, which is C13's `Model.Heap.create`. -/
+
+/-- **A refused allocation inside `ptrheap_create` is reported, and the failed call leaves nothing behind** — for every
+oracle, every key function and every element list (no bound on `N`): (1) if any request the call makes is refused (the
+oracle's refusal counter moved: it counts exactly the consulted requests that were refused) the call returns NULL;
+(2) whenever it returns NULL, the count of live blocks is exactly what it was before the call (so the structure and
+the list structure, if they had been granted, were released again); (3) spelled out on the oracle, for `8 * N` within
+`size_t`: the call fails **iff** the oracle refuses request `m.n` (40 bytes: the structure), or request `m.n + 1` (24
+bytes: the list structure), or — for `N > 0` only — request `m.n + 2` (`8 * N` bytes: the list's buffer), and it makes
+at most these three requests. -/
+theorem heap_create_failure (key : Nat → Int) (ptrs : List Nat) (m : Mem) :
+    (m.refusals < (HeapAlloc.create key ptrs m).2.refusals → (HeapAlloc.create key ptrs m).1 = none) ∧
+    ((HeapAlloc.create key ptrs m).1 = none → (HeapAlloc.create key ptrs m).2.live = m.live) ∧
+    (8 * ptrs.length ≤ EArray.SIZE_MAX →
+      ((HeapAlloc.create key ptrs m).1 = none ↔
+        (m.f m.n 40 = false ∨ m.f (m.n + 1) 24 = false ∨ (ptrs ≠ [] ∧ m.f (m.n + 2) (8 * ptrs.length) = false))) ∧
+      (HeapAlloc.create key ptrs m).2.n ≤ m.n + 3) :=
+  ⟨(HeapCreateAlloc.create_refused_fails key ptrs m).1, (HeapCreateAlloc.create_refused_fails key ptrs m).2,
+   HeapCreateAlloc.create_fails_iff key ptrs m⟩
+
+/-- only the third request — the list's buffer — refused, three elements: NULL, nothing live, one refusal, three requests -/
+example : let r := HeapAlloc.create (fun e => (e : Int)) [5, 3, 9] { f := fun n _ => n != 2 }
+    r.1.isNone = true ∧ r.2.live = 0 ∧ r.2.refusals = 1 ∧ r.2.n = 3 ∧ r.2.log = [24, 24, 40] := by decide
+/-- each site alone, and none: for `N = 0` the third request is never made -/
+example : (HeapAlloc.create (fun e => (e : Int)) [5, 3] { f := fun n _ => n != 0 }).1.isNone = true ∧
+    (HeapAlloc.create (fun e => (e : Int)) [5, 3] { f := fun n _ => n != 0 }).2.n = 1 ∧
+    (HeapAlloc.create (fun e => (e : Int)) [5, 3] { f := fun n _ => n != 1 }).1.isNone = true ∧
+    (HeapAlloc.create (fun e => (e : Int)) [5, 3] { f := fun n _ => n != 1 }).2.live = 0 ∧
+    (HeapAlloc.create (fun e => (e : Int)) [] { f := fun n _ => n != 2 }).1.isSome = true ∧
+    (HeapAlloc.create (fun e => (e : Int)) [] { f := fun n _ => n != 2 }).2.n = 2 := by decide
+
+/-- **A `ptrheap_create` that succeeds** (every oracle, every list): no request was refused; the heap is C13's
+`Model.Heap.create` of the list, stored in exactly `8 * N` bytes (`HInv`); it holds **exactly the given elements**
+(`C13.heap_create`: a permutation of `ptrs`), and for distinct pointers it satisfies C13's heap invariant
+(`C13.inv_iff`: heap order under `key`, every element's last reported position is its slot — handle consistency —,
+no element twice), so `C13.getmin_least`, `heap_delete`, … apply to it; it took two blocks plus the buffer (`N > 0`);
+and **releasing it with `ptrheap_free` leaves exactly the blocks that were live before the call**. -/
+theorem heap_create_success (key : Nat → Int) (ptrs : List Nat) (m : Mem) (ha : HeapAlloc.HeapA) (m' : Mem)
+    (h : HeapAlloc.create key ptrs m = (some ha, m')) :
+    m'.refusals = m.refusals ∧
+    ha.h = Heap.create key ptrs ∧ ha.alloc = 8 * ptrs.length ∧ HInv ha ∧
+    ha.h.a.toList.Perm ptrs ∧ (ptrs.Nodup → Proofs.Heap.Inv key ha.h) ∧
+    m'.live = m.live + 2 + (if ptrs = [] then 0 else 1) ∧
+    (HeapAlloc.free ha m').live = m.live := by
+  have hs := HeapCreateAlloc.create_spec key ptrs m
+  rw [h] at hs
+  obtain ⟨h1, h2, _, h4, h5⟩ := hs
+  have hal := HeapCreateAlloc.create_alloc key ptrs m ha m' h
+  refine ⟨h4, h1, hal, h2, ?_, fun hnd => ?_, ?_, HeapCreateAlloc.create_free_live key ptrs m ha m' h⟩
+  · rw [h1]; exact Proofs.Heap.create_perm key ptrs
+  · rw [h1]; exact (C13.heap_create key ptrs hnd).1
+  · rw [h5, hal]
+    cases ptrs <;> simp
+
+/-- seven elements with equal keys among them, every request granted: heap order, five blocks' worth of accounting
+(`2 + 1`), nothing live after `ptrheap_free`; and the empty list takes two blocks -/
+example : let key : Nat → Int := fun e => ((e % 3 : Nat) : Int)
+    let r := HeapAlloc.create key [6, 4, 8, 1, 7, 3, 5] Mem.grantAll
+    (r.1.map (·.h.a)) = some #[6, 4, 3, 1, 7, 8, 5] ∧ (r.1.map (·.alloc)) = some 56 ∧ r.2.live = 3 ∧ r.2.refusals = 0 ∧
+    (r.1.map fun ha => (HeapAlloc.free ha r.2).live) = some 0 ∧
+    (HeapAlloc.create key [] Mem.grantAll).2.live = 2 ∧ [6, 4, 8, 1, 7, 3, 5].Nodup := by decide
+
+/-- **`ptrheap_init` is `ptrheap_create` of no element** (as in the C), so the two theorems above cover it, and the call
+succeeds as soon as the allocator grants what is asked (it can be made again after a failure). -/
+theorem heap_create_init_retry (key : Nat → Int) (ptrs : List Nat) (m : Mem) :
+    HeapAlloc.create key [] m = HeapAlloc.init m ∧
+    (8 * ptrs.length ≤ EArray.SIZE_MAX → (∀ n sz, m.n ≤ n → m.f n sz = true) →
+      (HeapAlloc.create key ptrs m).1.isSome = true) :=
+  ⟨HeapCreateAlloc.create_nil key m, fun hs hg => HeapCreateAlloc.create_succeeds_when_granted key ptrs m hs hg⟩
+
+example : ∀ n sz, (Mem.grantAll).n ≤ n → (Mem.grantAll).f n sz = true := fun _ _ _ => rfl
+
+open Percival.Model.AfStep Percival.Proofs.AfStep in
+/-- **`heap_create_failure` read off the executable**: when `pmodel af` carries out an `h_create` line (distinct ids the
+harness can name: `createSkip els = false`) the call it makes is `HeapAlloc.create` of the line's ids under the caller's
+keys, on the allocator left by releasing a heap the harness still had (`AfStep.initMem`); if the printed line does not
+say `ok`, then afterwards there is no heap, the count of live blocks is exactly that allocator's — nothing of the
+failed call is left —, and a request was refused (`rf > 0` on the line). -/
+theorem exec_af_heap_create_failure (s : AfStep.S) (els : List (Nat × Int)) (hc : Spec.AfMon.createSkip els = false)
+    (hf : ∀ rfn id l2, (stepOp s (.hCreate els)).2 ≠ .heap true rfn id l2) :
+    heapCall s (.hCreate els) = some
+      ((HeapAlloc.create (Spec.AfMon.keyFn (els ++ s.keys)) (els.map (·.1)) (initMem s)).1.isSome, none,
+       (HeapAlloc.create (Spec.AfMon.keyFn (els ++ s.keys)) (els.map (·.1)) (initMem s)).1, initMem s,
+       (HeapAlloc.create (Spec.AfMon.keyFn (els ++ s.keys)) (els.map (·.1)) (initMem s)).2) ∧
+    (stepOp s (.hCreate els)).1.h = none ∧ (stepOp s (.hCreate els)).1.m.live = (initMem s).live ∧
+    (initMem s).refusals < (stepOp s (.hCreate els)).1.m.refusals := by
+  have hcall : heapCall s (.hCreate els) = some
+      ((HeapAlloc.create (Spec.AfMon.keyFn (els ++ s.keys)) (els.map (·.1)) (initMem s)).1.isSome, none,
+       (HeapAlloc.create (Spec.AfMon.keyFn (els ++ s.keys)) (els.map (·.1)) (initMem s)).1, initMem s,
+       (HeapAlloc.create (Spec.AfMon.keyFn (els ++ s.keys)) (els.map (·.1)) (initMem s)).2) := by
+    simp only [heapCall, hc]
+    rfl
+  obtain ⟨h1, h2, h3, _⟩ := stepOp_heapCall s _ _ _ _ _ _ hcall
+  have hnone : (HeapAlloc.create (Spec.AfMon.keyFn (els ++ s.keys)) (els.map (·.1)) (initMem s)).1 = none := by
+    cases hb : (HeapAlloc.create (Spec.AfMon.keyFn (els ++ s.keys)) (els.map (·.1)) (initMem s)).1 with
+    | none => rfl
+    | some ha => rw [hb] at h3; exact absurd h3 (hf _ _ _)
+  have hs := HeapCreateAlloc.create_spec (Spec.AfMon.keyFn (els ++ s.keys)) (els.map (·.1)) (initMem s)
+  have hlen := (Proofs.AfMonHeap.createSkip_false els hc).2.2
+  rw [h1, h2]
+  rcases hres : HeapAlloc.create (Spec.AfMon.keyFn (els ++ s.keys)) (els.map (·.1)) (initMem s) with ⟨o, m'⟩
+  rw [hres] at hs hnone hcall ⊢
+  dsimp only at hnone
+  subst hnone
+  dsimp only at hs ⊢
+  refine ⟨hcall, rfl, hs.1, ?_⟩
+  rcases hs.2 with h | h
+  · exact h
+  · simp only [Proofs.EArray.SIZE_MAX_eq] at h; omega
+
+open Percival.Model.AfStep Percival.Proofs.AfStep in
+/-- **`heap_create_success` read off the executable**: if the line `pmodel af` prints for an `h_create` it carries out
+says `ok`, it says `rf=0`, and its heap is C13's `Heap.create` of the line's ids under the caller's keys — exactly those
+ids, C13's invariant — stored in `8 * N` bytes; releasing it again gives back the allocator's count before the call. -/
+theorem exec_af_heap_create_success (s : AfStep.S) (els : List (Nat × Int)) (hc : Spec.AfMon.createSkip els = false)
+    (rfn : Nat) (id : Option (Option Nat)) (l2 : AfStep.HL2) (hok : (stepOp s (.hCreate els)).2 = .heap true rfn id l2) :
+    rfn = 0 ∧ ∃ ha, (stepOp s (.hCreate els)).1.h = some ha ∧
+      ha.h = Heap.create (Spec.AfMon.keyFn (els ++ s.keys)) (els.map (·.1)) ∧ ha.alloc = 8 * els.length ∧
+      ha.h.a.toList.Perm (els.map (·.1)) ∧ Proofs.Heap.Inv (Spec.AfMon.keyFn (els ++ s.keys)) ha.h ∧
+      (stepOp s (.hCreate els)).1.hlive = els.map (·.1) ∧
+      (HeapAlloc.free ha (stepOp s (.hCreate els)).1.m).live = (initMem s).live := by
+  have hnd := (Proofs.AfMonHeap.createSkip_false els hc).1
+  rw [Proofs.AfMonHeap.stepOp_hCreate_go s els hc] at hok ⊢
+  rcases hres : HeapAlloc.create (Spec.AfMon.keyFn (els ++ s.keys)) (els.map (·.1)) (Proofs.AfMonHeap.initMem s)
+    with ⟨o, m'⟩
+  rw [hres] at hok ⊢
+  cases o with
+  | none => simp at hok
+  | some ha =>
+    obtain ⟨g1, g2, g3, _, g5, g6, _, g8⟩ := heap_create_success _ _ _ ha m' hres
+    simp only [AfStep.Out.heap.injEq, true_and] at hok
+    refine ⟨?_, ha, rfl, g2, by simpa using g3, g5, g6 hnd, rfl, g8⟩
+    rw [← hok.1]
+    simp only [DsStep.rf]
+    omega
+
+/-- `failat 3; h_create 5:7,3:2,9:2`: carried out, the line says `fail rf=1`, no heap, nothing live; the same line
+without a fault says `ok rf=0`, the heap is `3, 5, 9` (`3` and `9` have equal keys), and `end` shows `live=0` -/
+example : Spec.AfMon.createSkip [(5, 7), (3, 2), (9, 2)] = false ∧
+    (AfStep.stepOp (AfStep.stepOp {} (.failat 3)).1 (.hCreate [(5, 7), (3, 2), (9, 2)])).2.ans =
+      { head := .fail, ntoks := 2, rf := some 1 } ∧
+    (AfStep.stepOp (AfStep.stepOp {} (.failat 3)).1 (.hCreate [(5, 7), (3, 2), (9, 2)])).1.m.live = 0 ∧
+    (AfStep.stepOp {} (.hCreate [(5, 7), (3, 2), (9, 2)])).2.ans = { head := .ok, ntoks := 2, rf := some 0 } ∧
+    (AfStep.stepOp {} (.hCreate [(5, 7), (3, 2), (9, 2)])).1.h.map (·.h.a) = some #[3, 5, 9] := by decide
+example : (AfStep.stepOp (AfStep.stepOp {} (.hCreate [(5, 7), (3, 2), (9, 2)])).1 .end_).2.ans =
+      { head := .end_, ntoks := 3, live := some 0, leaked := some 0 } := by decide +kernel
+
+/-- the monitor on `h_create`: `fail` needs a refused request, `ok` needs none, a line naming an id twice (or an id the
+harness cannot name) must be skipped; and the generic theorems `monitor_accepts_model_step` / `monitor_accepts_model`
+above (every `Op`) cover the new op: a case with `h_create` under `failat 3`, made again, used and released -/
+example : (Spec.AfMon.monStep {} (.hCreate [(5, 7), (3, 2)]) { head := .fail, ntoks := 2, rf := some 0 }).2 ≠ none ∧
+    (Spec.AfMon.monStep {} (.hCreate [(5, 7), (3, 2)]) { head := .fail, ntoks := 2, rf := some 1 }).2 = none ∧
+    (Spec.AfMon.monStep {} (.hCreate [(5, 7), (3, 2)]) { head := .ok, ntoks := 2, rf := some 1 }).2 ≠ none ∧
+    (Spec.AfMon.monStep {} (.hCreate [(5, 7), (3, 2)]) { head := .ok, ntoks := 2, rf := some 0 }).1.heap = some [5, 3] ∧
+    (Spec.AfMon.monStep {} (.hCreate [(5, 7), (5, 2)]) { head := .ok, ntoks := 2, rf := some 0 }).2 ≠ none ∧
+    (Spec.AfMon.monStep {} (.hCreate [(4096, 7)]) { head := .skip, ntoks := 1 }).2 = none := by decide
+example : Proofs.AfMonSound.OpsOk [.failat 3, .hCreate [(5, 7), (3, 2), (9, 2)], .hCreate [(5, 7), (3, 2), (9, 2)], .hMin,
+    .hAdd 1 2, .hDelmin, .hCreate [], .hFree, .hCreate [(0, 0)], .end_] := by
+  refine ⟨by simp [Proofs.AfMonSound.EndLast], fun op hop => ?_⟩
+  simp only [List.mem_cons, List.mem_nil_iff, or_false] at hop
+  rcases hop with rfl | rfl | rfl | rfl | rfl | rfl | rfl | rfl | rfl | rfl <;> simp [Proofs.AfMonEnd.OpOk]
+example : Spec.AfMon.acceptsRun {} (Proofs.AfMonReg.answered {} [.failat 3, .hCreate [(5, 7), (3, 2), (9, 2)],
+    .hCreate [(5, 7), (3, 2), (9, 2)], .hMin, .hAdd 1 2, .hDelmin, .hCreate [], .hFree, .hCreate [(0, 0)], .end_]) = true := by
+  decide +kernel
 
 end Percival.C14
